@@ -900,6 +900,11 @@ func (in *Interp) initPackage(p *ssa.Package) {
 		return
 	}
 	if skipInit[p.Pkg.Path()] {
+		if h := partialInit[p.Pkg.Path()]; h != nil {
+			in.initDepth++
+			h(in, p)
+			in.initDepth--
+		}
 		return
 	}
 	in.initDepth++
@@ -1178,7 +1183,7 @@ func (in *Interp) eval(fr *frame, v ssa.Value) Value {
 		return cloneVal(a.e[x.Field])
 	case *ssa.IndexAddr:
 		base := in.get(fr, x.X)
-		idx := in.get(fr, x.Index)
+		idx := normIndex(in.get(fr, x.Index), x.Index.Type())
 		symIdx := false
 		if it, ok := idx.(*Term); ok && !it.isC && onlyLoaded(x) {
 			symIdx = true
@@ -1204,7 +1209,7 @@ func (in *Interp) eval(fr *frame, v ssa.Value) Value {
 		in.abort("IndexAddr on %T", base)
 	case *ssa.Index:
 		base := in.get(fr, x.X)
-		idx := in.get(fr, x.Index)
+		idx := normIndex(in.get(fr, x.Index), x.Index.Type())
 		switch bv := base.(type) {
 		case Str:
 			return in.strIndex(bv, idx)
@@ -1222,7 +1227,7 @@ func (in *Interp) eval(fr *frame, v ssa.Value) Value {
 	case *ssa.Lookup:
 		base := in.get(fr, x.X)
 		if s, ok := base.(Str); ok {
-			return in.strIndex(s, in.get(fr, x.Index))
+			return in.strIndex(s, normIndex(in.get(fr, x.Index), x.Index.Type()))
 		}
 		m, _ := base.(*Map)
 		res, found := in.mapLookup(m, in.get(fr, x.Index))
@@ -1313,6 +1318,19 @@ func (in *Interp) makeSlice(et types.Type, n, c int) Slice {
 		}
 	}
 	return Slice{arr: a, len: n, cap: c}
+}
+
+// normIndex zero-extends an index of a narrow *unsigned* type (e.g. utf8.first[s[0]] with a byte index) to 64 bits;
+// boundedIndex/symSelect/strIndex sign-extend, which is only right for signed index types.
+func normIndex(idx Value, t types.Type) Value {
+	it, ok := idx.(*Term)
+	if !ok || it.w == 0 || it.w >= 64 {
+		return idx
+	}
+	if w, signed := width(t); w > 0 && !signed {
+		return Ext(it, 64, false)
+	}
+	return idx
 }
 
 // boundedIndex returns a concrete in-range index, forking on symbolic indexes; out of range panics.
